@@ -33,6 +33,11 @@ class TALLoader:
         return self.vfs.listdir(self.path)
 
     def __getattr__(self, key):
+        if key in ("", ".", "..") or "/" in key or "\\" in key or "\0" in key:
+            # One name at a time, and downwards only: "root/../x" (or a
+            # "?name" that holds a whole path) would walk out of the
+            # document root.
+            raise AttributeError("Key %s not found in %s" % (key, self.path))
         fq = os.path.join(self.path, key)
         if self.vfs.isfile(fq + ".html.tal"):
             with self.vfs.open(
